@@ -1130,4 +1130,70 @@ theorem C06_pow_neg (e : Env) (val : Val) (h : Feasible e val) (a k : Nat) (hk :
     exact ⟨narrow_lb _ _ _ (by simp [lbOK]) (Or.inr o3), narrow_ub _ _ _ (by simp [ubOK]) (Or.inr o4),
            fun hh => by simp [Pre.narrow] at hh⟩
 
+/-! ## narrowing from results down to arguments (constr_prop_down.h) -/
+
+/-- **narrowing from the result down to the arguments** (`constr_prop_down.h`): if the result of an
+and / or / not / implication / if-then-else lies in `[lb, ub]` and the logical arguments are 0/1-valued, every bound
+handed to an argument contains the argument's value — nothing consistent with the result is excluded. -/
+theorem C06_prop_down (c : Con) (val : Val) (lb ub : Rat)
+    (hbin : ∀ n ∈ propDownArgs c lb ub, val n.1 = 0 ∨ val n.1 = 1)
+    (hl : lb ≤ Con.eval tr trp val c) (hu : Con.eval tr trp val c ≤ ub) :
+    ∀ n ∈ propDownArgs c lb ub, n.2.1 ≤ val n.1 ∧ val n.1 ≤ n.2.2 := by
+  intro n hn
+  have hb := hbin n hn
+  cases c with
+  | and as =>
+    simp only [propDownArgs, List.mem_map] at hn
+    obtain ⟨a, ha, rfl⟩ := hn
+    simp only [Con.eval] at hl
+    refine ⟨?_, by rcases hb with h | h <;> simp only [h] <;> norm_num⟩
+    by_cases hall : (as.all fun v => truthy (val v)) = true
+    · have := (List.all_eq_true.mp hall) a ha
+      simp only [truthy, decide_eq_true_eq] at this
+      rcases hb with h | h
+      · rw [h] at this; norm_num at this
+      · simp only [hall, b2r, if_true] at hl; simp only [h]; exact hl
+    · have hf : (as.all fun v => truthy (val v)) = false := by simpa using hall
+      simp only [hf, b2r] at hl
+      rcases hb with h | h <;> simp only [h] <;> norm_num at hl ⊢ <;> linarith
+  | or as =>
+    simp only [propDownArgs, List.mem_map] at hn
+    obtain ⟨a, ha, rfl⟩ := hn
+    simp only [Con.eval] at hu
+    refine ⟨by rcases hb with h | h <;> simp only [h] <;> norm_num, ?_⟩
+    by_cases hany : (as.any fun v => truthy (val v)) = true
+    · simp only [hany, b2r, if_true] at hu
+      rcases hb with h | h <;> simp only [h] <;> linarith
+    · have hf : (as.any fun v => truthy (val v)) = false := by simpa using hany
+      have := (List.any_eq_false.mp hf) a ha
+      simp only [truthy, decide_eq_true_eq] at this
+      simp only [hf, b2r] at hu
+      rcases hb with h | h
+      · simp only [h]; norm_num at hu; exact hu
+      · rw [h] at this; norm_num at this
+  | not a =>
+    simp only [propDownArgs, List.mem_singleton] at hn
+    subst hn
+    simp only [Con.eval] at hl hu
+    rcases hb with h | h
+    · simp only [h, truthy, b2r] at hl hu ⊢; norm_num at hl hu ⊢; constructor <;> linarith
+    · simp only [h, truthy, b2r] at hl hu ⊢; norm_num at hl hu ⊢; constructor <;> linarith
+  | impl a b d =>
+    refine ⟨?_, ?_⟩ <;>
+      (simp only [propDownArgs, List.mem_cons, List.mem_singleton, List.not_mem_nil, or_false] at hn
+       rcases hn with rfl | rfl | rfl <;> rcases hb with h | h <;> simp only [h] <;> norm_num)
+  | ifthen a b d =>
+    simp only [propDownArgs, List.mem_singleton] at hn
+    subst hn
+    rcases hb with h | h <;> simp only [h] <;> norm_num
+  | _ => simp [propDownArgs] at hn
+
+/-- the rule of the seeded change C06-2 (`and`: hand `[lb, ub]` instead of `[lb, 1]` to the arguments) is NOT sound:
+`and(a, b)` with `a = 1, b = 0` has result `0 ∈ [0, 0]`, yet `a = 1 ∉ [0, 0]`. -/
+theorem C06_prop_down_and_ub_unsound :
+    ∃ (val : Val), Con.eval tr trp val (.and [0, 1]) ≤ 0 ∧ (val 0 = 0 ∨ val 0 = 1) ∧ (val 1 = 0 ∨ val 1 = 1) ∧ ¬ (val 0 ≤ 0) := by
+  refine ⟨fun i => if i = 0 then 1 else 0, ?_, Or.inr rfl, Or.inl rfl, by norm_num⟩
+  simp [Con.eval, truthy, b2r]
+  norm_num
+
 end MpVerif.C06
